@@ -15,7 +15,7 @@ func init() {
 		Level: "Structural necessary conditions of 'sparse and skip indexes never prune a block with a match': the three-valued mark algebra is And=(T∧T',F∨F'), Or=(T∨T',F∧F'), Not=swap; every atom of the key condition leaves exactly one element in the RPN program and every operator that is not a comparison in key order becomes an always-true element; " +
 			"the hyper-rectangle evaluation accumulates the marks of the open middle, the left bound and the right bound (both bound helpers return the accumulated mark); bisection is used only for conditions on the first key column and probes only prefix/suffix fragment ranges (hull semantics); the skip-index scan drops a fragment only when its reader answered 'cannot match'; " +
 			"each skip-index kind that has a writer has a registered reader and vice versa; the bloom-filter reader tokenises atoms only for the column whose filter file it opens. " +
-			"NOT decided: Range/FieldRef comparison semantics for every key type and nulls, bloom-filter hashing/tokenisation agreement between writer and reader (value-level).",
+			"the open-middle rectangle is evaluated with the ranges of all trailing key columns reset to their whole domain; bloom-filter writers emit exactly one block per segment; NOT decided: Range/FieldRef comparison semantics for every key type and nulls, bloom-filter hashing/tokenisation agreement between writer and reader (value-level).",
 		Assumptions: commonAssumptions,
 		Technique:   "static analysis: algebra shape by truth table, must-pass-through of RPN emission, sibling agreement of the bound helpers, guard dominance, argument-shape tables, registry tables",
 		Rules:       "C20.R1 R2 R3 R4 R5 R6",
